@@ -13,6 +13,14 @@ def overlap(a, b):
     return all(a[i][0] <= b[i][1] and a[i][1] >= b[i][0] for i in range(3))
 
 
+def overlap_matrix(A, B):
+    """Closed-interval overlap of every box of A with every box of B (numpy; same predicate as overlap())."""
+    import numpy as np
+    A = np.asarray(A, dtype=float).reshape(-1, 3, 2)
+    B = np.asarray(B, dtype=float).reshape(-1, 3, 2)
+    return np.all((A[:, None, :, 0] <= B[None, :, :, 1]) & (A[:, None, :, 1] >= B[None, :, :, 0]), axis=2)
+
+
 class Model:
     def __init__(self):
         self.trees = {}
@@ -98,7 +106,8 @@ def _box(rng, cfg, prev):
 
 
 def gen(rng, tier="quick", prop="C05"):
-    big = tier == "thorough" and rng.chance(0.35)
+    big = (tier == "thorough" and rng.chance(0.35)) or (tier == "quick" and rng.chance(0.03))
+    chain = big and rng.chance(0.6)  # a long monotone run of boxes: the tree is never rebalanced, so it gets deep
     cfg = {
         "styles": rng.choice([["lattice"], ["uniform"], ["lattice", "uniform"], ["lattice", "uniform", "tiny"]]),
         "lattice_scale": rng.choice([1.0, 1.0, 0.5, 0.1, 10.0]),
@@ -113,7 +122,11 @@ def gen(rng, tier="quick", prop="C05"):
     ops = []
     model = Model()
     nbatch_max = rng.choice([1, 2, 3, 4, 6, 8])
-    size_max = rng.choice([1, 3, 8, 25, 40]) if not big else rng.choice([80, 150, 400])
+    size_max = rng.choice([1, 3, 8, 25, 40]) if not big else rng.choice([140, 200, 400])
+    if big and tier == "quick":
+        nbatch_max = min(nbatch_max, 2)
+        size_max = rng.choice([140, 200])
+    chain_x = [0.0]
     payload_no = [0]
 
     def emit(op):
@@ -126,8 +139,19 @@ def gen(rng, tier="quick", prop="C05"):
         if "empty" in faults and rng.chance(0.1):
             n = 0
         boxes = []
-        for _ in range(n):
-            boxes.append(_box(rng, cfg, prev + boxes))
+        if chain and n > 0:
+            n = max(n, size_max - rng.randint(0, 10))
+            flat = rng.chance(0.3)
+            for _ in range(n):
+                w = rng.choice([0.5, 1.0, 1.0, 2.0])
+                x0 = chain_x[0] + rng.choice([0.0, 0.25, 1.0])
+                chain_x[0] = x0 + w * rng.choice([0.5, 1.0])
+                boxes.append([[x0, x0 + w], [0.0, 0.0 if flat else 1.0], [0.0, 1.0]])
+            if rng.chance(0.3):
+                rng.shuffle(boxes)
+        else:
+            for _ in range(n):
+                boxes.append(_box(rng, cfg, prev + boxes))
         mode = rng.choice(cfg["modes"])
         op = {"op": "ins", "t": t, "boxes": boxes, "mode": mode}
         if rng.chance(0.7):
@@ -237,7 +261,11 @@ def judge(plan, jr, prop="C05"):
         kind = op["op"]
         if kind == "qbox":
             tree = model.trees[op["t"]]
-            exp = {e[2]: e[1] for e in tree if overlap(e[0], op["box"])}
+            if len(tree) > 40:
+                m = overlap_matrix([e[0] for e in tree], [op["box"]])[:, 0]
+                exp = {tree[i][2]: tree[i][1] for i in m.nonzero()[0]}
+            else:
+                exp = {e[2]: e[1] for e in tree if overlap(e[0], op["box"])}
             hits = o["hits"]
             idxs = [h[0] for h in hits]
             if len(set(idxs)) != len(idxs):
@@ -277,10 +305,15 @@ def judge(plan, jr, prop="C05"):
         elif kind == "qtree":
             ta, tb = model.trees[op["a"]], model.trees[op["b"]]
             exp = {}
-            for ea in ta:
-                for eb in tb:
-                    if overlap(ea[0], eb[0]):
-                        exp[(ea[2], eb[2])] = (ea[1], eb[1])
+            if ta and tb and len(ta) * len(tb) > 400:
+                m = overlap_matrix([e[0] for e in ta], [e[0] for e in tb])
+                for i, j in zip(*m.nonzero()):
+                    exp[(ta[i][2], tb[j][2])] = (ta[i][1], tb[j][1])
+            else:
+                for ea in ta:
+                    for eb in tb:
+                        if overlap(ea[0], eb[0]):
+                            exp[(ea[2], eb[2])] = (ea[1], eb[1])
             pairs = o["pairs"]
             ij = [(p[0], p[1]) for p in pairs]
             if len(set(ij)) != len(ij):
@@ -392,7 +425,7 @@ def stats(plan, jr):
                 inc("probe.qbox_hits", len(o.get("hits", [])))
                 box = op["box"]
                 tree = model.trees.get(op["t"], [])
-                for e in tree:
+                for e in (tree if len(tree) <= 60 else ()):
                     if overlap(e[0], box):
                         if any(e[0][i][0] == box[i][1] or e[0][i][1] == box[i][0] for i in range(3)):
                             inc("probe.touching_hit")
